@@ -3,10 +3,16 @@ package main
 import (
 	"bytes"
 	"context"
+	"crypto/sha256"
+	"encoding/hex"
+	"encoding/json"
 	"fmt"
+	"os"
 	"os/exec"
+	"path/filepath"
 	"strings"
 	"sync"
+	"sync/atomic"
 	"time"
 )
 
@@ -25,6 +31,7 @@ type Outcome struct {
 	Model    map[string]string
 	SolverS  float64
 	Disagree bool
+	Cached   bool
 }
 
 var solverCmds = map[string]func(timeout int) []string{
@@ -73,6 +80,55 @@ func runSolver(ctx context.Context, name string, text string, timeout int) Solve
 // discharge decides one query. Quick tier: z3-new alone with a short budget
 // first, then all three raced. Thorough: all three must run and agree.
 func discharge(q *Query, prelude string, budget int, thorough bool) *Outcome {
+	oc := dischargeUncached(q, prelude, budget, thorough, true)
+	return oc
+}
+
+// Proof cache. The verification conditions are regenerated from /repo's working tree on every run; what is
+// memoised is only the solver's verdict for a byte-identical query (header, prelude, VC, tier), and only a
+// definitive one (unsat, or sat with its model output). A changed function, contract or engine produces a
+// different query text and therefore misses the cache. The cache lives in /verif/.cache (not committed).
+var cacheDir = ""
+var cacheHits, cacheMisses int64
+
+type cacheEntry struct {
+	Status  string      `json:"status"`
+	By      string      `json:"by"`
+	Secs    float64     `json:"secs"`
+	Results []SolverRes `json:"results"`
+}
+
+// splitHint remembers (set) or asks (!set) whether a conjunctive goal had to be decided conjunct by conjunct.
+// It is a strategy hint for a byte-identical query, not a verdict: the conjuncts are still discharged (or
+// found in the cache) one by one.
+func splitHint(q *Query, prelude string, thorough bool, set bool) bool {
+	if cacheDir == "" {
+		return false
+	}
+	if q.Raw {
+		prelude = ""
+	}
+	key := cacheKey(smtHeader+prelude+q.Text+"(check-sat)\n"+q.valueRequest(), thorough)
+	path := filepath.Join(cacheDir, key[:2], key+".split")
+	if set {
+		os.MkdirAll(filepath.Dir(path), 0o755)
+		os.WriteFile(path, []byte("split\n"), 0o644)
+		return true
+	}
+	_, err := os.Stat(path)
+	return err == nil
+}
+
+func cacheKey(full string, thorough bool) string {
+	h := sha256.New()
+	if thorough {
+		h.Write([]byte("thorough\n"))
+	}
+	h.Write([]byte(full))
+	return hex.EncodeToString(h.Sum(nil))
+}
+
+func dischargeUncached(q *Query, prelude string, budget int, thorough bool, useCache bool) *Outcome {
 	oc := &Outcome{Q: q}
 	if q.Raw {
 		prelude = ""
@@ -80,6 +136,44 @@ func discharge(q *Query, prelude string, budget int, thorough bool) *Outcome {
 	text := smtHeader + prelude + q.Text + "(check-sat)\n"
 	valueReq := q.valueRequest()
 	full := text + valueReq
+	if useCache && cacheDir != "" {
+		key := cacheKey(full, thorough)
+		path := filepath.Join(cacheDir, key[:2], key+".json")
+		if b, err := os.ReadFile(path); err == nil {
+			var ce cacheEntry
+			if json.Unmarshal(b, &ce) == nil && (ce.Status == "discharged" || ce.Status == "refuted") {
+				atomic.AddInt64(&cacheHits, 1)
+				oc.Results = ce.Results
+				oc.Cached = true
+				oc.finish()
+				oc.SolverS = 0
+				return oc
+			}
+		}
+		atomic.AddInt64(&cacheMisses, 1)
+		defer func() {
+			if oc.Status == "discharged" || oc.Status == "refuted" {
+				var keep []SolverRes
+				for _, r := range oc.Results {
+					if r.Verdict == "unsat" || r.Verdict == "sat" {
+						if r.Verdict == "unsat" && len(r.Output) > 200 {
+							r.Output = r.Output[:200]
+						}
+						if len(r.Output) > 20000 {
+							r.Output = r.Output[:20000]
+						}
+						keep = append(keep, r)
+					}
+				}
+				b, _ := json.Marshal(cacheEntry{Status: oc.Status, By: oc.By, Secs: oc.SolverS, Results: keep})
+				os.MkdirAll(filepath.Dir(path), 0o755)
+				tmp := path + fmt.Sprintf(".%d.tmp", os.Getpid())
+				if os.WriteFile(tmp, b, 0o644) == nil {
+					os.Rename(tmp, path)
+				}
+			}
+		}()
+	}
 	if q.Ob.Cover {
 		// reachability covers: a quick satisfiability probe; "unknown" is inconclusive, not a failure
 		r := runSolver(context.Background(), "z3-new", full, 2)
